@@ -11,6 +11,7 @@ import threading as real_threading
 import dsched
 
 KINDS = ["ok", "exc", "baseexc", "badres", "badarg"]
+KINDS_TIMEOUT = KINDS + ["slow_to", "slow_to", "ok"]        # slow_to: slow method called with a short rpc_timeout
 FAULTS = ["none", "remove", "stop_server", "stop_client", "disconnect", "remove_then_stop"]
 
 
@@ -38,6 +39,12 @@ def make_object_class():
         @rpc_method
         def ok(self, tag, payload=None):
             self._enter(tag)
+            return ("val", tag)
+
+        @rpc_method
+        def slow(self, tag, payload=None):
+            self._enter(tag)
+            dsched.FAKE_TIME.sleep(5.0)
             return ("val", tag)
 
         @rpc_method
@@ -410,6 +417,9 @@ def scenario(s, spec):
             obs["calls"][tag] = rec
             meth = "ok" if kind == "badarg" else kind
             payload = real_threading.Lock() if kind == "badarg" else None
+            if kind == "slow_to":
+                finish(rec, lambda: proxy.slow(tag, None, rpc_timeout=1.0))
+                continue
             if nb_mask[i % len(nb_mask)]:
                 try:
                     fut = getattr(proxy.rpc_nonblocking, meth)(tag, payload)
@@ -437,7 +447,7 @@ def scenario(s, spec):
     for t in threads:
         t.start()
     f = spec["fault"]
-    dsched.FAKE_TIME.sleep(0)
+    dsched.FAKE_TIME.sleep(spec.get("fault_delay", 0))
     if f in ("remove", "remove_then_stop"):
         srv.remove_rpc_object(lp)
     if f in ("stop_server", "remove_then_stop"):
